@@ -2,7 +2,7 @@ META = {
     'level': 'exploration',
     'engine': 'E2+E3',
     'technique': 'cascade predictor + foreign_key_check + commit observer over delete-heavy histories',
-    'level_text': 'Every delete is compared with the cascade predictor of the reference model (cascade to dependents, clear optional references, refuse on a required dependent without cascade); PRAGMA foreign_key_check and a row comparison run on the raw file after every commit. Held on the generated histories only: fixed templates covering every relationship kind alternate with random 2-4 entity diagrams; violating histories are shrunk by re-running the real code.',
+    'level_text': 'Two workloads: random long histories and a small-scope exhaustive mode (all operation sequences up to length 3 / 4 over a focused alphabet per relationship and per key, each in a fresh session on a committed population). Every delete is compared with the cascade predictor of the reference model (cascade to dependents, clear optional references, refuse on a required dependent without cascade); PRAGMA foreign_key_check and a row comparison run on the raw file after every commit. Held on the generated histories only: fixed templates covering every relationship kind alternate with random 2-4 entity diagrams; violating histories are shrunk by re-running the real code.',
     'level_note': 'Trusted: the reference model in vlib/hmodel.py (documented assignment / collection / cascade semantics, conflict timing free), SQLite as the only backend, single-threaded sessions. Loud unexpected errors are counted, not judged. One-to-one self links are out of scope.',
     'rule': 'one case = one generated history (diagram + operation list, up to N operations over several sessions); distinct = distinct (diagram, operation list); non-trivial = at least two applied modifications and at least one event judged by the deciding monitor',
     'assumptions': ['SQLite only', 'reference model semantics as documented in DESIGN.md 2.2', 'histories are single-threaded'],
@@ -21,9 +21,18 @@ CFG = {
 }
 
 
+SMALL = {
+    'templates': ['mixed_cascade', 'o2m_req', 'o2m_req_nocascade', 'o2o_req_cascade', 'self'],
+    'length': {'quick': 3, 'thorough': 4},
+    'budget': {'quick': 12000, 'thorough': 400000},
+    'monitors': CFG['monitors'],
+}
+
+
 def run(ctx):
-    from vlib import hcheck
+    from vlib import hcheck, hsmall
     hcheck.run_histories(ctx, CFG)
+    hsmall.run_small_scope(ctx, dict(SMALL, stop_on_taint=CFG.get('stop_on_taint', True)))
     ctx.floor('cascade.deletes_judged', 200)
 
 
